@@ -256,7 +256,7 @@ def r1_r4_expansion(prog, rep: Report, f: Func):
               f"the queue is also accessed by {other[:2]}", scenario="entries are removed or reordered outside the heap discipline")
 
 
-def _is_score_sum_key(g: Func, key, scores: str) -> bool:
+def _is_score_sum_key(g: Func, key, scores: str) -> Optional[bool]:
     """the key handed to sorted_combinations is the exact sum of the scores of the indices: `lambda x: sum(scores[i] for i in x)`
     or a nested function that adds scores[i] over its parameter with + and returns the total"""
     if isinstance(key, ast.Lambda):
@@ -280,7 +280,10 @@ def _is_score_sum_key(g: Func, key, scores: str) -> bool:
             st = body[1].body[0]
             return isinstance(st, ast.AugAssign) and isinstance(st.op, ast.Add) and src(st.target) == tot \
                 and isinstance(st.value, ast.Subscript) and src(st.value.value) == scores and src(st.value.slice) == src(body[1].target)
-    return False
+        return None            # a nested function of another shape (a memoising one ...): what it returns is not read here
+    if isinstance(key, ast.Lambda):
+        return False
+    return None
 
 
 class _ScanStep(Client):
@@ -330,9 +333,16 @@ def r5_scan(prog, rep: Report, g: Func, f: Func):
     call = flow.expand(lp.iter) if isinstance(lp.iter, ast.Name) else lp.iter        # a named stream
     ok_call = False
     if isinstance(call, ast.Call) and src(call.func) == f.name and len(call.args) >= 2:
-        a0 = flow.expand(call.args[0]) if isinstance(call.args[0], ast.Name) else call.args[0]
-        ok_call = src(a0) == f"range(len({elements}))" and _is_score_sum_key(g, call.args[1], scores) \
+        from ..util import expand_all as _ea0
+        a0 = _ea0(call.args[0], flow)                     # n = len(elements); range(n)
+        key_ok = _is_score_sum_key(g, call.args[1], scores)
+        ok_call = src(a0) == f"range(len({elements}))" and key_ok is True \
             and any(k.arg == "yield_key" and const_value(k.value) is True for k in call.keywords)
+        if not ok_call and key_ok is None and src(a0) == f"range(len({elements}))" \
+                and any(k.arg == "yield_key" and const_value(k.value) is True for k in call.keywords):
+            rep.unrec("C17.R5", g, "feeds", f"the key handed to {f.name} is `{src(call.args[1])[:60]}`: whether it is the exact sum of the "
+                      "scores of the indices is not read from its body")
+            return
     from ..util import expand_all as _ea
     call_x = _ea(call, flow) if isinstance(call, ast.AST) else call
     if not ok_call and isinstance(call_x, ast.Call) and src(call_x.func) != f.name and any(
@@ -384,7 +394,19 @@ def r5_scan(prog, rep: Report, g: Func, f: Func):
 
     def _in_loop(r) -> bool:
         return any(x is r for x in ast.walk(lp))
-    others = [r for r in ast.walk(g.node) if isinstance(r, ast.Return) and _own(r)
+    def _empty_input_exit(r) -> bool:
+        """`if len(elements) == 0: return res` ahead of the scan, while res is still the empty accumulator: with no elements the
+        stream is empty and the scan returns the same []"""
+        par = getattr(r, "_parent", None)
+        if not (isinstance(par, ast.If) and par in g.node.body and g.node.body.index(par) < g.node.body.index(lp) and r in par.body
+                and len(par.body) == 1 and not par.orelse):
+            return False
+        if not (_is_res(r.value) or (isinstance(r.value, ast.List) and not r.value.elts)):
+            return False
+        from ..util import expand_all as _ea1
+        t = src(_ea1(par.test, flow))
+        return t in (f"len({elements}) == 0", f"not {elements}", f"not len({elements})", f"0 == len({elements})", f"len({elements}) < 1")
+    others = [r for r in ast.walk(g.node) if isinstance(r, ast.Return) and _own(r) and not _empty_input_exit(r)
               and not (_is_res(r.value) and ((r in g.node.body and g.node.body.index(r) > g.node.body.index(lp)) or _in_loop(r)))]
     if others:
         rep.unrec("C17.R5", g, "single-producer", f"`{src(others[0])}` produces a result without the scan of the sorted stream: "
@@ -394,7 +416,11 @@ def r5_scan(prog, rep: Report, g: Func, f: Func):
         rep.ok("C17.R5", g, "single-producer", f"every return hands back `{res}` (or a plain copy), after the scan or as the scan's stop")
 
     def mk_term(found: bool, env):
-        def term(x):
+        def term(x, _d=0):
+            if isinstance(x, ast.Name) and _d < 4:
+                ex_ = flow.expand(x)                       # min_score = res[-1][1]
+                if ex_ is not x:
+                    return term(ex_, _d + 1)
             t = src(x)
             if t == f"{res}[-1][1]" or t == f"{res}[0][1]":
                 return env["best"]
@@ -456,14 +482,17 @@ def r5_scan(prog, rep: Report, g: Func, f: Func):
               scenario="a combination whose sum equals i_end is returned, or one equal to i_start is not", line=lp.lineno)
     app = [x for x in ast.walk(lp) if isinstance(x, ast.Call) and isinstance(x.func, ast.Attribute) and x.func.attr == "append"
            and isinstance(x.func.value, ast.Name) and x.func.value.id == res]
-    ok_app = False
-    if len(app) == 1 and isinstance(app[0].args[0], ast.Tuple) and len(app[0].args[0].elts) == 2 and src(app[0].args[0].elts[1]) == s_v:
-        sel = app[0].args[0].elts[0]
-        if isinstance(sel, ast.Name):
-            from ..util import comprehension_of
-            sel = comprehension_of(g.node, sel.id) or flow.expand(sel)
-        ok_app = isinstance(sel, ast.ListComp) and src(sel.generators[0].iter) == comb_v and not sel.generators[0].ifs \
-            and isinstance(sel.elt, ast.Subscript) and src(sel.elt.value) == elements and src(sel.elt.slice) == src(sel.generators[0].target)
+    ok_app = bool(app)
+    for one in app:                      # every append site (a tie fast path may have its own) reports (elements of the combination, score)
+        good = False
+        if one.args and isinstance(one.args[0], ast.Tuple) and len(one.args[0].elts) == 2 and src(one.args[0].elts[1]) == s_v:
+            sel = one.args[0].elts[0]
+            if isinstance(sel, ast.Name):
+                from ..util import comprehension_of
+                sel = comprehension_of(g.node, sel.id) or flow.expand(sel)
+            good = isinstance(sel, ast.ListComp) and src(sel.generators[0].iter) == comb_v and not sel.generators[0].ifs \
+                and isinstance(sel.elt, ast.Subscript) and src(sel.elt.value) == elements and src(sel.elt.slice) == src(sel.generators[0].target)
+        ok_app = ok_app and good
     rep.check("C17.R5", g, "result", ok_app, "appends ([elements[i] for i in combination], score)",
               "an accepted combination is not reported as (its elements, its score)",
               scenario="indices are returned instead of elements, or the score of another combination")
